@@ -1,6 +1,7 @@
 import MsiProofs.Props.C01
 import MsiProofs.Lemmas.EndToEnd
 import MsiProofs.Lemmas.Lifecycle
+import MsiProofs.Lemmas.AsciiLifecycle
 /-
 C01, end to end on the model — from any state satisfying the package invariants (reference counts
 exact up to a slack, keys ascending, metadata streams in sync, catalog tables in sync with the table
@@ -56,6 +57,14 @@ def create_unfold := @MsiProofs.Lifecycle.create_unfold
 /-- **every package made with `Package::create` reopens as it was**, after any admissible history -/
 def create_reopens := @MsiProofs.Lifecycle.create_reopens
 def created_reopens := @MsiProofs.Lifecycle.created_reopens
+
+/-- **the `Savable` hypothesis discharged for ASCII text**: with ASCII texts in every call, only the
+summary's well-formedness is assumed at the final save -/
+def created_ascii_reopens := @MsiProofs.AsciiLifecycle.created_ascii_reopens
+/-- every reachable state keeps a pool that can be written (counts below 65,536, no live empty
+entry, texts satisfying the predicate the inputs satisfy, a supported code page) -/
+def historyA := @MsiProofs.AsciiLifecycle.historyA
+def step_pt := @MsiProofs.AsciiLifecycle.step_pt
 
 /-- non-vacuity: `Package::create` succeeds (kernel evaluation of the model) -/
 theorem create_succeeds : (create Profile.dev 0).isOk = true := by decide +kernel
